@@ -807,6 +807,9 @@ func (env *SpecEnv) ident(name string) SV {
 		if v, ok := fr.ghost[name]; ok {
 			return SV{V: v}
 		}
+		if alt, ok := vc.eng.forToRange(fr.fn)[name]; ok {
+			return env.renamedIdent(alt)
+		}
 		for _, p := range fr.fn.Params {
 			if p.Name() == name {
 				if v, ok := fr.env[p]; ok {
@@ -909,11 +912,47 @@ func (env *SpecEnv) ident(name string) SV {
 			if !seen {
 				vc.notes = append(vc.notes, note)
 			}
-			return env.ident(alt)
+			return env.renamedIdent(alt)
 		}
 	}
 	sfail("unknown identifier %q in spec", name)
 	return SV{}
+}
+
+// renamedIdent resolves what names.go's renamedLocal returned: a plain name, "<name>-1", or
+// "rangeindex@<k>+1" (the hidden index of range loop k, plus one).
+func (env *SpecEnv) renamedIdent(alt string) SV {
+	vc, fr := env.vc, env.fr
+	if strings.HasPrefix(alt, "rangeindex@") {
+		k := 0
+		fmt.Sscanf(alt, "rangeindex@%d+1", &k)
+		vc.eng.loopInfo(fr.fn, nil)
+		for _, li := range vc.eng.loops[fr.fn] {
+			if li.Ordinal != k {
+				continue
+			}
+			for _, ins := range li.Header.Instrs {
+				phi, ok := ins.(*ssa.Phi)
+				if !ok {
+					break
+				}
+				if phi.Comment == "rangeindex" {
+					if v, ok := fr.env[phi].(Term); ok {
+						return SV{V: vc.iAdd(v, vc.likeIdx(v, 1)), T: phi.Type()}
+					}
+				}
+			}
+		}
+		sfail("unknown identifier in spec (range index of loop %d not available)", k)
+	}
+	if strings.HasSuffix(alt, "-1") {
+		sv := env.ident(strings.TrimSuffix(alt, "-1"))
+		if v, ok := sv.V.(Term); ok {
+			return SV{V: vc.iSub(v, vc.likeIdx(v, 1)), T: sv.T}
+		}
+		sfail("unknown identifier %q in spec", alt)
+	}
+	return env.ident(alt)
 }
 
 type pkgRef struct{ p *types.Package }
